@@ -163,3 +163,18 @@ def local_raise(p):
         if ev.k == "yield" and ev.a == "throw":
             return None
     return None
+
+
+def bool_table(ctx, f):
+    """A boolean-valued function as a table {(frozenset of normalised conditions of the path, returned bool)};
+    `return a != b` and `if a != b: return True / return False` give the same table.  None if some return value
+    is not a constant bool after forking."""
+    rows = set()
+    for p, st in states(ctx, f, fork_returns=True):
+        if p.exit[0] != "return":
+            continue
+        if not (st.ret is not None and st.ret[0] == "c" and isinstance(st.ret[1], bool)):
+            return None
+        conds = frozenset((rel_norm(t, pol) or truth_norm(t, pol)) for t, pol, _ in st.log)
+        rows.add((conds, st.ret[1]))
+    return rows
